@@ -88,6 +88,9 @@ def cases(rng: random.Random, tier: str):
             continue
         outs, conds = pr
         c = {"g": g, "outcomes": outs, "conditions": conds, "seed": rng.randrange(1 << 30)}
+        if rng.random() < 0.015 and g["di"]:   # malformed: cyclic graph (both sides must fail the same way)
+            c["g"] = dict(g, di=g["di"] + [[g["di"][0][1], g["di"][0][0]]])
+            c["malformed"] = "cyclic"
         if rng.random() < 0.04:   # make the condition certainly impossible
             var, val = conds[0]
             n0 = int(var[1])
